@@ -595,6 +595,36 @@ def rule_section_tables(repo: Repo) -> List[Ob]:
     _emit(obs, "M-section-tables", f"{UIT}::{helper.qualname}::per-section", UIT, calls[0][1].lineno if calls else helper.node.lineno, helper.qualname, ok,
                   "functional arguments are resolved separately for the initial block and the loop body (tables of unconditioned constants / draws never cross the loop head)" if ok else
                   f"the resolver is called with {[src(c.args[0]) for _, c in calls]}: facts about the initial block (x is the constant 1) survive into the loop body where x is updated" if ok is False else "calls of the resolver not recognised")
+    # the tables are created inside the resolver: what was recorded for one section is not visible to the next
+    hself = helper.params()[0] if helper.params() else "self"
+    hdefs = Defs(helper.node, hself)
+    tabs = {}
+    for n in walk_no_nested(helper.node):
+        if isinstance(n, ast.Assign) and isinstance(n.targets[0], ast.Subscript) and isinstance(n.targets[0].value, (ast.Name, ast.Attribute)):
+            tabs.setdefault(src(n.targets[0].value), n)
+    fresh = None
+    stale = []
+    for tname, site in tabs.items():
+        if tname.startswith(hself + "."):
+            # a field: fresh only if the resolver itself re-creates it before use
+            attr = tname.split(".", 1)[1]
+            recreated = any(isinstance(x, ast.Assign) and any(is_self_attr(t, attr, hself) for t in x.targets) and isinstance(x.value, (ast.Dict, ast.Call)) for x in walk_no_nested(helper.node))
+            if not recreated:
+                stale.append(tname)
+            continue
+        vals = hdefs.defs.get(tname, [])
+        whole = [v for v, st in zip(vals, hdefs.def_sites.get(tname, [])) if isinstance(st, ast.Assign) and isinstance(v, ast.expr) and not isinstance(st.targets[0], ast.Subscript)]
+        for v in whole:
+            if is_self_attr(v, None, hself) or (isinstance(v, ast.Name) and v.id in helper.params()):
+                stale.append(f"{tname} = {src(v)}")
+            elif isinstance(v, ast.Dict) and not v.keys:
+                fresh = True if fresh is None else fresh
+    if tabs:
+        _emit(obs, "M-section-tables", f"{UIT}::{helper.qualname}::fresh-per-section", UIT, helper.node.lineno, helper.qualname,
+              False if stale else fresh,
+              (f"the tables of unconditioned constants / draws ({', '.join(stale)}) outlive one call of the resolver: what the initial block recorded about a variable is still believed in the loop body, "
+               "where the variable may be re-assigned conditionally -- the refusal `no unconditional distribution` turns into a wrong moment") if stale else
+              "the tables are created empty inside the resolver (one set per section)" if fresh else "creation of the tables not recognised")
     # within a section the tables only record *unconditioned* assignments
     conds = [n for n in walk_no_nested(helper.node) if isinstance(n, ast.If) and "isinstance" in src(n.test) and ("DistAssignment" in src(n.test) or "PolyAssignment" in src(n.test))]
     ok2 = None
